@@ -479,3 +479,125 @@ def maybe_raise(I, label, cls=None, args=None):
 
 def faults_on_path(I):
     return [n[1] for n in I.eng.path_notes if isinstance(n, tuple) and n and n[0] == "fault"]
+
+
+# ------------------------------------------------------------------------------------------------
+# lists of symbolic length that are only appended to and measured (trajectory, action log)
+
+
+class CountedList:
+    """A Python list about which only its length is tracked symbolically (`len`, `append`); the elements
+    appended on the current path are kept for inspection by postconditions."""
+
+    def __init__(self, length, tag="list"):
+        self.length = length
+        self.appended = []
+        self.tag = tag
+
+    def __repr__(self):
+        return f"<list {self.tag} of length {self.length}>"
+
+
+def install_counted_lists(reg):
+    if getattr(reg, "_models_dyn_counted", False):
+        return
+    reg._models_dyn_counted = True
+    prev_get, prev_len, prev_inst = reg.getattr_fallback, reg.len_fallback, reg.isinstance_hook
+    from .values import arith
+
+    def getattr_fb(I, obj, name):
+        if isinstance(obj, CountedList):
+            if name == "append":
+
+                def append(x):
+                    obj.length = arith("+", obj.length, 1)
+                    obj.appended.append(x)
+
+                return BuiltinFn("list.append", append)
+            raise PyvcError(f"list.{name} on a counted list not modelled")
+        if prev_get is not None:
+            return prev_get(I, obj, name)
+        raise PyvcError(f"attribute {name!r} of {obj!r} not modelled (line {I.lineno})")
+
+    def len_fb(I, x):
+        if isinstance(x, CountedList):
+            return x.length
+        if prev_len is not None:
+            return prev_len(I, x)
+        raise PyvcError(f"len of {x!r} not modelled")
+
+    def isinstance_hook(I, x, cls):
+        if isinstance(x, CountedList):
+            return cls is list
+        if prev_inst is not None:
+            return prev_inst(I, x, cls)
+        return None
+
+    reg.getattr_fallback = getattr_fb
+    reg.len_fallback = len_fb
+    reg.isinstance_hook = isinstance_hook
+
+
+# ------------------------------------------------------------------------------------------------
+# small library models: builtins module, enum.auto, named nondeterministic choices
+
+
+class EnumToken:
+    """Value of an enum member defined with `enum.auto()`: one interned token per defining line."""
+
+    def __init__(self, line):
+        self.line = line
+        self.fields = {}
+
+    def __repr__(self):
+        return f"<enum member defined on line {self.line}>"
+
+
+def _make_enum(I):
+    cache = {}
+
+    def auto():
+        return cache.setdefault(I.lineno, EnumToken(I.lineno))
+
+    return bm.NativeModule("enum", {"auto": BuiltinFn("auto", auto), "unique": BuiltinFn("unique", lambda c: c), "Enum": object, "IntEnum": object})
+
+
+bm.EXTRA_MODULES.setdefault("enum", _make_enum)
+bm.EXTRA_MODULES.setdefault("builtins", lambda I: bm.NativeModule("builtins", dict(I.builtins)))
+
+
+def pick(I, n, label):
+    """`Engine.choose` whose decision is also recorded in the path notes, so that a postcondition can
+    name the case it is in: ("choice", label, k)."""
+    k = I.eng.choose(n, label)
+    I.eng.path_notes.append(("choice", label, k))
+    return k
+
+
+def picked(I, prefix):
+    """All recorded decisions whose label starts with `prefix`, in order."""
+    return [n[2] for n in I.eng.path_notes if isinstance(n, tuple) and len(n) == 3 and n[0] == "choice" and n[1].startswith(prefix)]
+
+
+def install_fstrings(reg):
+    """Evaluate f-strings whose parts are concrete strings / integers without format specs (generated identifiers
+    such as f"{prefix}_handler_{i}"); anything else stays the opaque text "<fstring>"."""
+
+    def hook(I, node, env):
+        parts = []
+        for v in node.values:
+            if isinstance(v, ast.Constant):
+                parts.append(str(v.value))
+                continue
+            if isinstance(v, ast.FormattedValue) and v.format_spec is None and v.conversion == -1:
+                try:
+                    x = I.eval(v.value, env)
+                except Exception:
+                    return "<fstring>"
+                if isinstance(x, (str, int)) and not isinstance(x, bool):
+                    parts.append(str(x))
+                    continue
+            return "<fstring>"
+        return "".join(parts)
+
+    reg.fstring_hook = hook
